@@ -94,9 +94,12 @@ CLAIMS['C06'] = dict(cat='exploration', ref='DESIGN.md §3.4, §4', tech=SEQ_TEC
          'all-thread quiescent rounds, and no per-thread or orphaned list is left non-empty.',
     note=SEQ_NOTE + 'Statistics-free build; scenario list.')
 
+CLAIMS['C09'] = dict(cat='exploration', ref='DESIGN.md §3.4, §4', tech=SEQ_TECH,
+    text='Exhaustive within its bound: 7 scan scenarios (scan, scan_from, scan_range, both directions, one- and two-level trees, removals/inserts that restructure nodes on the scanner\'s stack) x EVERY atomic access of the '
+         'scan as the point at which another thread completes one insert or remove: strictly monotone order, interval, correct values, no key absent throughout, every entry present throughout delivered exactly once.',
+    note=SEQ_NOTE + 'One writer operation per scan, one scanner, scans of 4-5 entries; iterator on the guarded fixed-capacity stack hook.')
+
 NOT_APPLICABLE = {
-    'C09': 'needs the OLC iterator under interleavings: one sequential seek with a symbolic bound already costs 10 min on a 3-leaf tree, and with an enumerated preemption index a multi-step scan has ~300 preemption points per scenario '
-           'whose oracle must place the interference relative to each visitor call; not built - nothing about concurrent scans is claimed (DESIGN.md §4 C09)',
 }
 
 PENDING = 'check not built yet in this round (work in progress; see DESIGN.md §4)'
